@@ -18,7 +18,7 @@ PROFILES = {
                  criteria_forms=("cmp", "list", "bool"), aligned=0.6),
     "trees": dict(max_containers=12, max_depth=4, fanout=4, fields=(0, 3), kinds=("int", "int", "int", "enum", "bool",
                   "calint"), nested=0.5, ctx=0.0, dcal=0.0, dyn=0.0, desc=0.0, arbitrary_names=0.4,
-                  criteria_forms=("cmp", "list", "bool"), aligned=0.3, small_ints=True),
+                  criteria_forms=("cmp", "list", "bool"), aligned=0.3, small_ints=True, deep=True),
     "blobs": dict(max_containers=3, max_depth=2, fanout=2, fields=(1, 4), kinds=("str", "str", "bin", "lenint", "int"),
                   nested=0.15, ctx=0.0, dcal=0.2, dyn=0.75, desc=0.0, arbitrary_names=0.1,
                   criteria_forms=("cmp", "list"), aligned=0.5),
@@ -406,6 +406,8 @@ class Gen:
         if depth >= self.p["max_depth"]:
             return
         nchild = self.draw(st.integers(0 if depth else 1, self.p["fanout"]))
+        if self.p.get("deep") and depth < 2 and nchild == 0 and self.chance(0.8):
+            nchild = 1
         for _ in range(nchild):
             if len(self.containers) >= self.p["max_containers"]:
                 return
